@@ -28,7 +28,7 @@ func init() {
 		ID:    "C20",
 		Level: "model_checking",
 		Rule: "product per transaction type of per-field domains (strings: empty, valid, malformed, case variants, U+017F, invalid UTF-8, 10 kB; bytes: absent, empty, 31, zero32, nonzero32, 33, 10 kB; amounts: absent, -1, 0, 1, 2^256-1; integers: 0, 1, max), " +
-			"each message built as wire bytes and decoded by the generated Unmarshal, in 4 states (populated, both paused, default genesis, threshold near 2^32/65); all 19 queries with nil request and nil/contradictory/extreme pagination; " +
+			"each message built as wire bytes and decoded by the generated Unmarshal, in 5 states (populated, both paused, default genesis, threshold near 2^32/65, malformed-but-accepted attester strings); all 19 queries with nil request and nil/contradictory/extreme pagination; " +
 			"both message decoders and the verifier over all lengths 0..300; the CLI address parser over all strings of length <=3 over {0,x,1,z,O,U+017F} plus long inputs; every call under recover(); " +
 			"distinct_nontrivial = distinct (entry point, field-shape vector) classes",
 		Assumptions: []string{"a panic fingerprint is entry point + innermost repository frame (function), not the line"},
@@ -156,7 +156,7 @@ func product(doms [][]dom, f func(names []string, fields []pbField)) {
 	}
 }
 
-var c20States = []string{"populated", "paused", "default-genesis", "huge-threshold"}
+var c20States = []string{"populated", "paused", "default-genesis", "huge-threshold", "odd-attesters"}
 
 func c20Jobs(tier string) []Job {
 	var jobs []Job
@@ -190,6 +190,10 @@ func c20Scenario(state string) (Scenario, []Action) {
 	case "huge-threshold":
 		// 65 * 66076420 = 2^32 + 4
 		g.SignatureThreshold = &cctptypes.SignatureThreshold{Amount: 66076420}
+	case "odd-attesters":
+		// attester strings the enable handler accepts (any non-empty hex): short keys, an address, odd length
+		g.AttesterList = []cctptypes.Attester{{Attester: Keys[0].Hex}, {Attester: "abcd"}, {Attester: fmt.Sprintf("0x%x", Keys[1].EthAddr)}, {Attester: "04"}, {Attester: "abc"}}
+		g.SignatureThreshold = &cctptypes.SignatureThreshold{Amount: 1}
 	case "populated":
 		g.PerMessageBurnLimitList = []cctptypes.PerMessageBurnLimit{{Denom: "uusdc", Amount: math.NewInt(1000)}}
 		g.UsedNoncesList = []cctptypes.Nonce{{SourceDomain: 0, Nonce: 5}}
@@ -246,6 +250,9 @@ func c20Msg(r *Run, state, typ string) {
 	}
 	// an own message and deposit for the replacement types (when sending is possible)
 	signers := Keys[0:2]
+	if state == "odd-attesters" {
+		signers = Keys[0:1]
+	}
 	var origSend, origDep []byte
 	if o := w.Apply(MkSend(UserA.Str, DomEth, distinct32(0x21), []byte("own"))); o.OK {
 		origSend = MessageSentOf(o.Events)[0]
